@@ -247,6 +247,28 @@ func c03Run(run *ev.Run) {
 	if int(evals) != total {
 		run.Cap(fmt.Sprintf("%d of %d flows", evals, total))
 	}
+	// long-lived tokens (1 h): further requests spread over 59 minutes (a store-side expiry that is shorter than the
+	// tokens' lifetime would send the browser to the provider again)
+	var long int64
+	for _, spec := range specs {
+		if len(spec.Scopes) != 1 || spec.Logout {
+			continue
+		}
+		spec.TokenLife = 3600
+		for _, a := range []world.Answer{answers[0], answers[len(answers)/2], answers[len(answers)-1]} {
+			c := c03Case{Answer: a, Spec: spec, Target: targets[0], Tail: []int{240, 480, 900, 900, 1020}}
+			res, n := c03Flow(c)
+			long++
+			steps += int64(n)
+			if res != "" {
+				sig, msg, _ := strings.Cut(res, "\x00")
+				run.Violation("C03 "+sig+" long-lived-tokens", msg, c)
+			} else {
+				run.Class(fmt.Sprintf("long-lived|%s|store=%s", c03Shape(c), spec.Store))
+			}
+		}
+	}
+	evals += long
 	// server level: real loader + factory + Check + trigger rules (serial: one in-memory network per process)
 	var srv int64
 	srvAnswers := answers
